@@ -1661,7 +1661,12 @@ class Parallel(Logger):
         # remaining jobs.
         self._iterating = False
         if self.dispatch_one_batch(iterator):
-            self._iterating = self._original_iterator is not None
+            # Completion callbacks clear both _original_iterator and _iterating
+            # (with the lock held) when the input is exhausted: read the one and
+            # set the other atomically with respect to them, otherwise a stale
+            # True can be stored after they ran and the call never terminates.
+            with self._lock:
+                self._iterating = self._original_iterator is not None
 
         while self.dispatch_one_batch(iterator):
             pass
